@@ -63,6 +63,8 @@ static void sort_one(Rng& rng, const std::vector<std::string>& in, const char* s
     std::vector<uint32_t> lcp(n + 1, CANARY);
     std::vector<std::pair<const unsigned char*, size_t> > out(n);
     dsched::Stats st;
+    const unsigned front = (unsigned)rng.below(8);   // which public front end (if public_api)
+    if (public_api) c.what += ", front end #" + std::to_string(front);
     if (repr == 0) {
         typedef ssd::UCharStringSet Set;
         std::vector<std::unique_ptr<unsigned char[]> > blocks(n);
@@ -74,7 +76,29 @@ static void sort_one(Rng& rng, const std::vector<std::string>& in, const char* s
         }
         std::vector<unsigned char*> before = ptrs;
         S.begin(rng.next(), (int)rng.below(dsched::STRATEGIES));
-        if (public_api) { if (with_lcp) tlx::sort_strings_parallel_lcp(ptrs.data(), n, lcp.data()); else tlx::sort_strings_parallel(ptrs.data(), n); }
+        if (public_api) {
+            // all eight pointer front ends denote the same sort (unsigned byte order whatever the char type)
+            static const char* FRONT[8] = { "unsigned char**", "char**", "const unsigned char**", "const char**", "vector<char*>",
+                                            "vector<unsigned char*>", "vector<const char*>", "vector<const unsigned char*>" };
+            verif::cover(std::string("front-end:") + FRONT[front] + (with_lcp ? ":lcp" : ":nolcp"));
+            uint32_t* L = lcp.data();
+            switch (front) {
+            case 0: if (with_lcp) tlx::sort_strings_parallel_lcp(ptrs.data(), n, L); else tlx::sort_strings_parallel(ptrs.data(), n); break;
+            case 1: { char** q = reinterpret_cast<char**>(ptrs.data()); if (with_lcp) tlx::sort_strings_parallel_lcp(q, n, L); else tlx::sort_strings_parallel(q, n); break; }
+            case 2: { const unsigned char** q = const_cast<const unsigned char**>(ptrs.data()); if (with_lcp) tlx::sort_strings_parallel_lcp(q, n, L); else tlx::sort_strings_parallel(q, n); break; }
+            case 3: { const char** q = (const char**)ptrs.data(); if (with_lcp) tlx::sort_strings_parallel_lcp(q, n, L); else tlx::sort_strings_parallel(q, n); break; }
+            case 4: { std::vector<char*> v(n); for (size_t i = 0; i < n; ++i) v[i] = reinterpret_cast<char*>(ptrs[i]);
+                      if (with_lcp) tlx::sort_strings_parallel_lcp(v, L); else tlx::sort_strings_parallel(v);
+                      for (size_t i = 0; i < n; ++i) ptrs[i] = reinterpret_cast<unsigned char*>(v[i]); break; }
+            case 5: if (with_lcp) tlx::sort_strings_parallel_lcp(ptrs, L); else tlx::sort_strings_parallel(ptrs); break;
+            case 6: { std::vector<const char*> v(n); for (size_t i = 0; i < n; ++i) v[i] = reinterpret_cast<const char*>(ptrs[i]);
+                      if (with_lcp) tlx::sort_strings_parallel_lcp(v, L); else tlx::sort_strings_parallel(v);
+                      for (size_t i = 0; i < n; ++i) ptrs[i] = reinterpret_cast<unsigned char*>(const_cast<char*>(v[i])); break; }
+            default: { std::vector<const unsigned char*> v(ptrs.begin(), ptrs.end());
+                      if (with_lcp) tlx::sort_strings_parallel_lcp(v, L); else tlx::sort_strings_parallel(v);
+                      for (size_t i = 0; i < n; ++i) ptrs[i] = const_cast<unsigned char*>(v[i]); break; }
+            }
+        }
         else if (with_lcp) Runner<P, ssd::StringLcpPtr<Set, uint32_t> >::run(ssd::StringLcpPtr<Set, uint32_t>(Set(ptrs.data(), ptrs.data() + n), lcp.data()));
         else Runner<P, ssd::StringPtr<Set> >::run(ssd::StringPtr<Set>(Set(ptrs.data(), ptrs.data() + n)));
         st = S.end();
@@ -90,7 +114,11 @@ static void sort_one(Rng& rng, const std::vector<std::string>& in, const char* s
         typedef ssd::StdStringSet Set;
         std::vector<std::string> arr = in;
         S.begin(rng.next(), (int)rng.below(dsched::STRATEGIES));
-        if (public_api) { if (with_lcp) tlx::sort_strings_parallel_lcp(arr.data(), n, lcp.data()); else tlx::sort_strings_parallel(arr.data(), n); }
+        if (public_api) {
+            verif::cover(std::string("front-end:") + (front & 1 ? "vector<std::string>" : "std::string*") + (with_lcp ? ":lcp" : ":nolcp"));
+            if (front & 1) { if (with_lcp) tlx::sort_strings_parallel_lcp(arr, lcp.data()); else tlx::sort_strings_parallel(arr); }
+            else { if (with_lcp) tlx::sort_strings_parallel_lcp(arr.data(), n, lcp.data()); else tlx::sort_strings_parallel(arr.data(), n); }
+        }
         else if (with_lcp) Runner<P, ssd::StringLcpPtr<Set, uint32_t> >::run(ssd::StringLcpPtr<Set, uint32_t>(Set(arr.data(), arr.data() + n), lcp.data()));
         else Runner<P, ssd::StringPtr<Set> >::run(ssd::StringPtr<Set>(Set(arr.data(), arr.data() + n)));
         st = S.end();
